@@ -537,7 +537,7 @@ def eval_split(case):
 # editing one rewrites the table.  While this is pending, a sequence whose edited dict is an entry of that
 # table is counted ("pending") but not run; with the fix no returned dict is a table entry and nothing is
 # left out.  Set to False to run them regardless.
-COMPOSITE_ALIAS_PENDING = True
+COMPOSITE_ALIAS_PENDING = False
 
 
 def _composite_table_entry(sd):
